@@ -6,6 +6,62 @@ metas = [json.load(open(f)) for f in sorted(glob.glob(os.path.join(ROOT, "seeded
 n = len(metas)
 missed = [m for m in metas if not m.get("detected_before_strengthening", True)]
 undetected = [m for m in metas if m.get("undetected")]
+
+
+def sweep_section():
+    path = os.path.join(ROOT, "sensitivity", "sweep.jsonl")
+    if not os.path.exists(path):
+        return ""
+    last = {}
+    for l in open(path):
+        r = json.loads(l)
+        last[r.get("key", r["id"])] = r
+    rs = list(last.values())
+    import collections
+    c = collections.Counter(r["outcome"] for r in rs)
+    by = collections.Counter(r.get("by") for r in rs if r["outcome"] == "detected")
+    alive = c["detected"] + c["survived"] + c["inconclusive"]
+    out = """### 6.1 Systematic sweep over syntactic mutants
+
+`tools/mutator` (go/ast) enumerates small syntactic changes of every non-test
+source file of textwire outside `lsp/` - comparison and arithmetic operators
+swapped, conditions negated, `if` statements / calls / assignments / `defer`
+deleted, `else` dropped, integer constants moved by one, booleans flipped,
+`break` and `continue` exchanged - and `tools/sweep.py` applies each to a
+scratch worktree (never to `/repo`), discards the ones that do not build or that
+the repository's own tests already reject, and runs the quick tier of the
+checks against the rest (`VERIF_REPO`), the properties anchored in the mutated
+package first, until one reports a violation. Records are kept in
+`sensitivity/sweep.jsonl` (keyed by file, function, operator and description,
+so that they survive edits of `/repo`); `tools/sweep_report.py` summarises them.
+
+State of the records: **%d mutation points**; %d do not build, %d are rejected by
+the repository's tests, **%d pass them**. Of those %d are detected by the checks
+(%s), %d survive all 20 quick checks and %d were inconclusive (a
+starved machine: hang reports that did not reproduce - the reason the driver now
+re-runs such shards).
+
+The survivors were read one by one (`tools/sweep_report.py`). Nearly all are
+equivalent with respect to the listed properties: the text of `@dump` and of
+printed arrays/objects (unspecified, only its determinism is a property), line
+numbers of API-level errors, dead code (`IfStmt.Stmts`, `PanicOnError`, the
+fallback of `nameFromPath`), redundant guards (an empty-string test before a
+loop that does nothing on empty strings, `if err != nil` after calls that cannot
+fail), bounds that only matter beyond 2^30 bytes, parser branches that turn one
+syntax error into another. The ones that were *not* equivalent each exposed an
+input class the generators lacked, and were closed: identifiers never contained
+the letter z or Z (-> `C12/names`); no check ran with the default configuration,
+and the reset hook itself repeated the default values (-> hook restores a copy of
+the initial configuration; C17 and C18 run with no / partial configuration);
+`@for` post clauses were always `i++`/`i--` (-> assignment and plain-step
+spellings, which exposed the defect fixed in `7080632`; clause faults, including
+one that only fails in a later pass; loops stepped in their body); malformed
+number lexemes never reached the evaluator checks (-> C09's untyped generator).
+""" % (len(rs), c["stillborn"], c["suite"], alive, c["detected"],
+       ", ".join("%s %d" % (k, v) for k, v in sorted(by.items())), c["survived"], c["inconclusive"])
+    return out + "\n"
+
+
 sec = """## 6. Sensitivity: seeded changes
 
 A check that stays green against a realistic breakage is decoration. The checks
@@ -23,8 +79,16 @@ confirmed all of that in a fresh worktree. They live in `seeded/<id>/`
 the repository and runs the property's quick check against that copy
 (`VERIF_REPO`).
 
-Three rounds were run (a: first idea; b: "a different mechanism"; c: "a third
-mechanism: interactions, boundaries, asymmetries"). Result: **%d seeded changes,
+Six rounds were run, one change per property and round (a: first idea; b: "a
+different mechanism"; c: "a third mechanism: interactions, boundaries,
+asymmetries"; d: told the earlier changes, "what a maintainer would plausibly do
+next"; e: "a trigger that somebody generating random templates and data would
+not think of"; f: told the earlier triggers as well, "a different kind of
+trigger"). The later rounds were deliberately adversarial towards a
+generator-based harness, and the share of changes missed at first rose
+accordingly (a-c: 17 of 56, d: 11 of 20, e: 15 of 19, f: 16 of 20) - which is
+the point of the exercise: every miss names an input class the generators did
+not reach. Result: **%d seeded changes,
 %d detected by the quick tier as it stands%s.** %d of them were *missed* by the
 checks as they stood when the change arrived; each miss led to a stronger
 generator or oracle (last column), never to a special case for the seeded input.
@@ -36,7 +100,8 @@ for m in metas:
     sec += "| %s | %s | %s | %s | %s | %s |\n" % (m["id"], m["property"], m["what"].replace("|", "/"), m["needs_to_manifest"].replace("|", "/"),
                                                  m.get("detected_by", "").replace("|", "/"), "yes" if not m.get("detected_before_strengthening", True) else "")
 sec += """
-What the misses taught (all fixed in the generators/oracles):
+What the misses of the first rounds taught (all fixed in the generators/oracles;
+section 4.0 lists what rounds D to F added):
 
 * **C06** inserts must be allowed to read the layout's loop variable (the reserve
   is *replaced by* the insert), and a directory must hold several pages that share
@@ -62,11 +127,12 @@ in 25 s incl. minimisation; `loop.last` off by one; `0.0` truthy; `Set` writing
 into the outer scope; counting `\\r` as a line end; an unsynchronised package
 variable written by `EvaluateString`): all detected by the quick tier.
 
-Every check was also run on the unchanged tree at `VERIF_SEED` 1-4 (quick) and 1-2
+Every check was also run on the unchanged tree at `VERIF_SEED` 1-6 (quick) and 1-2
 (thorough), partly while the machine was busy with sub-agents and other runs:
-no alarm, no inconclusive exit.
+no alarm. `tools/recheck_seeded.sh` re-runs every kept change against the
+current checks (after a fix in `/repo` two patches had to be re-based).
 
-"""
+""" + sweep_section()
 p = os.path.join(ROOT, "DESIGN.md")
 s = open(p).read()
 a = s.index("## 6. Sensi"); b = s.index("## 7. Limits")
